@@ -25,6 +25,11 @@ pub enum DiagPred {
     // or the end of input (reported as column 0 of the next line).
     WellFormedFront{max_line: u32},
     Pos{line: u32, col: u32},
+    // The failing token stands inside an interpolation slot: the reported
+    // position is that of the slot text and the message starts with the
+    // position inside it (`L:C: l:c: ...`, nested slots nest); composed they
+    // must give this true position.
+    SlotPos{line: u32, col: u32},
     InFunc(Option<String>),
     Trace(Vec<TraceLine>),
     NoTrace,
@@ -126,6 +131,35 @@ pub fn check_diag(stderr: &str, path: &str, preds: &[DiagPred]) -> Result<(), St
             DiagPred::Pos{line, col} => {
                 if (d.line, d.col) != (*line, *col) {
                     return Err(format!("reported position {}:{} but the offending token is at {}:{}", d.line, d.col, line, col));
+                }
+            },
+            DiagPred::SlotPos{line, col} => {
+                let (mut l, mut c) = (d.line, d.col);
+                let mut rest = d.msg.as_str();
+                let mut trail = format!("{l}:{c}");
+                loop {
+                    if let Some(r) = rest.strip_prefix("in '") {
+                        if let Some(i) = r.find("': ") {
+                            rest = &r[i + 3..];
+                            continue;
+                        }
+                    }
+                    let d1 = rest.bytes().take_while(|b| b.is_ascii_digit()).count();
+                    if d1 > 0 && d1 < 10 && rest[d1..].starts_with(':') {
+                        let r2 = &rest[d1 + 1..];
+                        let d2 = r2.bytes().take_while(|b| b.is_ascii_digit()).count();
+                        if d2 > 0 && d2 < 10 && r2[d2..].starts_with(": ") {
+                            let (il, ic): (u32, u32) = (rest[..d1].parse().unwrap_or(0), r2[..d2].parse().unwrap_or(0));
+                            trail.push_str(&format!(" + {il}:{ic}"));
+                            if il <= 1 { c = c + ic.max(1) - 1; } else { l = l + il - 1; c = ic; }
+                            rest = &r2[d2 + 2..];
+                            continue;
+                        }
+                    }
+                    break;
+                }
+                if (l, c) != (*line, *col) {
+                    return Err(format!("reported position {trail} = {l}:{c} but the offending token (inside an interpolation slot) is at {line}:{col}"));
                 }
             },
             DiagPred::InFunc(f) => {
@@ -397,6 +431,7 @@ fn diag_json(d: &DiagPred) -> Value {
         DiagPred::WellFormed{max_line} => json!({"well_formed": {"max_line": max_line}}),
         DiagPred::WellFormedFront{max_line} => json!({"well_formed_front": {"max_line": max_line}}),
         DiagPred::Pos{line, col} => json!({"pos": [line, col]}),
+        DiagPred::SlotPos{line, col} => json!({"slot_pos": [line, col]}),
         DiagPred::InFunc(f) => json!({"in_func": f}),
         DiagPred::Trace(t) => json!({"trace": t.iter().map(|x| json!([x.line, x.col, x.func])).collect::<Vec<_>>()}),
         DiagPred::NoTrace => json!({"no_trace": true}),
@@ -410,6 +445,9 @@ fn diag_from(v: &Value) -> Option<DiagPred> {
     }
     if let Some(w) = v.get("well_formed_front") {
         return Some(DiagPred::WellFormedFront{max_line: w.get("max_line")?.as_u64()? as u32});
+    }
+    if let Some(p) = v.get("slot_pos") {
+        return Some(DiagPred::SlotPos{line: p.get(0)?.as_u64()? as u32, col: p.get(1)?.as_u64()? as u32});
     }
     if let Some(p) = v.get("pos") {
         return Some(DiagPred::Pos{line: p.get(0)?.as_u64()? as u32, col: p.get(1)?.as_u64()? as u32});
